@@ -1863,7 +1863,10 @@ impl FunctionCompiler<'_> {
                         let default_val =
                             self.compile_and_cast_with_args(default.body, no_load, return_ty);
 
-                        if let Some(default_val) = default_val {
+                        if *self.tys[self.loc][default.body] == Ty::AlwaysJumps {
+                            // the arm left with `return` / `break` / `continue`: it has no value
+                            self.compile_unreachable(Some("end of noreturn switch arm reached"));
+                        } else if let Some(default_val) = default_val {
                             self.builder
                                 .ins()
                                 .jump(exit_block, &[BlockArg::Value(default_val)]);
@@ -1927,7 +1930,10 @@ impl FunctionCompiler<'_> {
                         let default_val =
                             self.compile_and_cast_with_args(default.body, no_load, return_ty);
 
-                        if let Some(default_val) = default_val {
+                        if *self.tys[self.loc][default.body] == Ty::AlwaysJumps {
+                            // the arm left with `return` / `break` / `continue`: it has no value
+                            self.compile_unreachable(Some("end of noreturn switch arm reached"));
+                        } else if let Some(default_val) = default_val {
                             self.builder
                                 .ins()
                                 .jump(exit_block, &[BlockArg::Value(default_val)]);
@@ -1954,7 +1960,10 @@ impl FunctionCompiler<'_> {
 
                     let body_val = self.compile_and_cast_with_args(arm.body, no_load, return_ty);
 
-                    if let Some(body_val) = body_val {
+                    if *self.tys[self.loc][arm.body] == Ty::AlwaysJumps {
+                        // the arm left with `return` / `break` / `continue`: it has no value
+                        self.compile_unreachable(Some("end of noreturn switch arm reached"));
+                    } else if let Some(body_val) = body_val {
                         self.builder
                             .ins()
                             .jump(exit_block, &[BlockArg::Value(body_val)]);
